@@ -11,7 +11,7 @@ RULE = ('strings / identifiers / nested values / object declarations over an alp
         'ConfigWriter (bytes compared with the model), compiled by the REAL ConfigCompiler and read back; raw literal texts (octal / bad '
         'escapes, heredocs, comments, duration suffixes) for the lexer model; create/delete/cascade sequences of length <= 6 through the REAL '
         'ConfigObjectUtility in the scratch _api package with failures provoked by invalid attribute, validation error, dangling reference, '
-        'duplicate name; template names with quote/newline; Service requests carrying a host_name attribute that is consistent with / contradicts (existing parent, missing parent) the composed name; a creation rejected in the commit phase followed by a valid creation of the same name, which must succeed. non-trivial = the case carries a payload byte outside [A-Za-z0-9_] or a '
+        'duplicate name; after EVERY operation the complete file tree below the package (one entry per object file: whose file, digest of the bytes) compared with the model and judged by the oracle (failed operation: identical tree; successful create: exactly the file of the target is new and holds the generated text; successful delete: exactly the files of the deleted closure are gone); 17 object types (Host, User, UserGroup, HostGroup, ServiceGroup, Check/Notification/EventCommand, TimePeriod, Zone, ApiUser, Service, host- and service-level Notification, Dependency, Comment, Downtime, ScheduledDowntime); families dup-runtime-<T>/dup-static-<T> (same request again, other attributes, other case, create-delete-create, first object static), cascade-graph/-chain/-dependency/-command (random dependency graphs incl. diamonds and a run-time check command; deletes with and without cascade), fail-<T>, extra-parts-<T>; cw_restart = the package directory loaded the way a restart loads it must yield exactly the live run-time objects (aimed families always, random sequences in the thorough tier); template names with quote/newline; Service requests carrying a host_name attribute that is consistent with / contradicts (existing parent, missing parent) the composed name; a creation rejected in the commit phase followed by a valid creation of the same name, which must succeed. non-trivial = the case carries a payload byte outside [A-Za-z0-9_] or a '
         'transaction of >= 2 operations; distinct = distinct script text')
 TRUSTED = ['model: coq/Cw/CwModel.v (transcription of ConfigWriter::Emit*, EscapeIcingaString, ConfigObjectUtility::CreateObjectConfig, '
            'config_lexer.ll INITIAL/STRING/HEREDOC/C_COMMENT states, a recogniser for the writer skeleton of config_parser.yy), coq/Cw/CwTxn.v '
@@ -19,7 +19,9 @@ TRUSTED = ['model: coq/Cw/CwModel.v (transcription of ConfigWriter::Emit*, Escap
            'source facts re-extracted each run (coq/Facts/Facts_c17.v): writer keyword list, identifier regex and regex function, escape table, '
            'import emission, EmitNumber format, lexer keyword list, lexer identifier rules, string escapes, chunk rule',
            'boost::regex semantics of ^/$ (default perl syntax: also at embedded \\n \\r \\f) transcribed by hand; glibc printf("%.6f") is correctly rounded (half-even on the exact value)',
-           'hook H1 (virtual clock) for the `version` attribute']
+           'hook H1 (virtual clock) for the `version` attribute',
+           'glue: FNV-1a-64 digest of file bytes (harness) / of the generated text (OCaml) - the same 6-line function on both sides; the table of reference attributes per type (ocaml/ops_cw.ml refs_of) from which the model dependencies and the oracle closure conditions are derived; ConfigObjectUtility::ComputeNewObjectConfigPath is used by the harness to attribute a file to a tracked (type, name)',
+           'cw_restart emulates a restart for the _api package only (unregister run-time objects, compile + commit + activate all object files in one activation context); statically configured objects are not reloaded']
 ASSUMPTIONS = ['a number is passed to model and harness as the shortest fixed notation (>= 6 decimals) that reads back as the binary64 under test; that this is what a correctly rounded printf/strtod pair produces is established by the run (byte comparison with the real writer), not inside the Gallina model', 'attribute paths within one request do not overlap (no key is a dotted prefix of another)',
                'HTTP layer / JSON decoding / permissions are not part of this check (C18, C20)']
 
@@ -29,6 +31,75 @@ FT = ' allf=%s cfgf=%s' % (ALLF, CFGF)
 SALLF = ALLF.replace('address,address6,', '')
 SCFGF = CFGF.replace('address,address6,', '')
 SFT = ' allf=%s cfgf=%s' % (SALLF, SCFGF)
+
+# every type the harness can create through ConfigObjectUtility: config fields used by the generator (cfgf) and the
+# minimal valid attribute dictionary.  allf = cfgf + one field that exists but is not configurable.
+_GRP = 'vars,display_name,groups,zone,name'
+_CMD = 'vars,command,arguments,env,timeout,zone,name'
+TYPES = {
+    'Host': (CFGF, 'last_check'), 'Service': (SCFGF, 'last_check'),
+    'User': ('vars,display_name,groups,period,email,pager,enable_notifications,zone,name', 'last_notification'),
+    'UserGroup': (_GRP, 'templates'), 'HostGroup': (_GRP, 'templates'), 'ServiceGroup': (_GRP, 'templates'),
+    'CheckCommand': (_CMD, 'templates'), 'NotificationCommand': (_CMD, 'templates'), 'EventCommand': (_CMD, 'templates'),
+    'TimePeriod': ('vars,display_name,ranges,prefer_includes,excludes,includes,zone,name', 'valid_begin'),
+    'Zone': ('parent,endpoints,global,zone,name', 'templates'),
+    'ApiUser': ('password,permissions,zone,name', 'templates'),
+    'Notification': ('vars,command,interval,period,users,user_groups,host_name,service_name,zone,name', 'last_notification'),
+    'Dependency': ('vars,child_host_name,child_service_name,parent_host_name,parent_service_name,disable_checks,disable_notifications,ignore_soft_states,period,zone,name', 'templates'),
+    'Comment': ('host_name,service_name,author,text,entry_type,persistent,expire_time,zone,name', 'legacy_id'),
+    'Downtime': ('host_name,service_name,author,comment,start_time,end_time,fixed,duration,zone,name', 'legacy_id'),
+    'ScheduledDowntime': ('vars,host_name,service_name,author,comment,ranges,fixed,duration,zone,name', 'templates'),
+}
+SIMPLE_TYPES = ['Host', 'User', 'UserGroup', 'HostGroup', 'ServiceGroup', 'CheckCommand', 'NotificationCommand', 'EventCommand', 'TimePeriod', 'Zone', 'ApiUser']
+COMPOSITE3 = ['Notification', 'Dependency', 'Comment', 'Downtime', 'ScheduledDowntime']
+COMPOSITE = ['Service'] + COMPOSITE3
+
+
+def ft(ty):
+    cfgf, extra = TYPES[ty]
+    return ' allf=%s,%s cfgf=%s' % (cfgf, extra, cfgf)
+
+
+def valid_attrs(ty, parent_host='h0'):
+    """minimal attribute dictionary with which the type can be created in the fixture"""
+    if ty in ('Host', 'Service'): return {'check_command': 'cwcmd'}
+    if ty in ('CheckCommand', 'NotificationCommand', 'EventCommand'): return {'command': ['/bin/true']}
+    if ty == 'TimePeriod': return {'ranges': {}}
+    if ty == 'ApiUser': return {'password': 'pw'}
+    if ty == 'Notification': return {'command': 'cwncmd', 'users': ['cwuser']}
+    if ty == 'Dependency': return {'parent_host_name': parent_host}
+    if ty == 'Comment': return {'author': 'cw', 'text': 'txt'}
+    if ty == 'Downtime': return {'author': 'cw', 'comment': 'cmt', 'start_time': Num(2100000000), 'end_time': Num(2100003600)}
+    if ty == 'ScheduledDowntime': return {'author': 'cw', 'comment': 'cmt', 'ranges': {}}
+    return {}
+
+
+def variant_attrs(ty, parent_host='h0'):
+    """valid attributes that differ from valid_attrs (a duplicate request that differs only in attributes)"""
+    a = dict(valid_attrs(ty, parent_host))
+    if ty in ('Host', 'Service', 'User', 'UserGroup', 'HostGroup', 'ServiceGroup'): a['display_name'] = 'other "one"'
+    elif ty in ('CheckCommand', 'NotificationCommand', 'EventCommand'): a['timeout'] = Num(17)
+    elif ty == 'TimePeriod': a['display_name'] = 'x'
+    elif ty == 'Zone': a['global'] = True
+    elif ty == 'ApiUser': a['password'] = 'other'
+    elif ty == 'Notification': a['interval'] = Num(90)
+    elif ty == 'Dependency': a['disable_checks'] = True
+    elif ty == 'Comment': a['text'] = 'another text'
+    elif ty == 'Downtime': a['comment'] = 'another'
+    elif ty == 'ScheduledDowntime': a['comment'] = 'another'
+    return a
+
+
+def cr(ty, name, attrs, exp='ok', must=False, extra=''):
+    return 'cw_create type=%s name=%s attrs=%s exp=%s%s%s%s' % (ty, hx(name), enc(attrs), exp, ' must=ok' if must else '', extra, ft(ty))
+
+
+def dl(ty, name, cascade=0):
+    return 'cw_delete type=%s name=%s cascade=%d' % (ty, hx(name), cascade)
+
+
+def st(ty, name, parent=None):
+    return 'cw_static type=%s name=%s%s' % (ty, hx(name), (' parent=' + hx(parent)) if parent else '')
 
 KEYWORDS = ['object', 'template', 'include', 'include_recursive', 'include_zones', 'library', 'null', 'true', 'false', 'const', 'var', 'this',
             'globals', 'locals', 'use', 'using', 'namespace', 'default', 'ignore_on_error', 'current_filename', 'current_line', 'apply', 'to',
@@ -343,6 +414,13 @@ def gen_txn(rnd, inexact_ok=True, nul_ok=False):
             if ('Host', h) in exist and ('Service', h + '!' + s) not in exist:
                 exist[('Service', h + '!' + s)] = False
             lines.append('cw_static type=Service name=%s' % hx(h + '!' + s))
+        elif r < 0.82 and exist:
+            # the name of an object that exists (run-time or static) requested again, with fresh attributes
+            k = rnd.choice(sorted(exist))
+            if k[0] == 'Host':
+                lines.append('cw_create type=Host name=%s attrs=%s exp=ok%s' % (hx(k[1]), enc(host_attrs(rnd, inexact_ok, nul_ok)), FT))
+            else:
+                lines.append('cw_create type=Service name=%s attrs=%s exp=ok%s' % (hx(k[1]), enc({'check_command': 'cwcmd', 'notes': rstr(rnd) or 'n'}), SFT))
         else:
             casc = rnd.randint(0, 1)
             if rnd.random() < 0.7 or not exist:
@@ -462,6 +540,124 @@ def generate(seed, tier):
                                'cw_create type=Host name=%s attrs=%s exp=ok must=ok%s' % (hx(nm), enc({'check_command': 'cwcmd', 'vars': {'k': 'v'}}), FT),
                                'cw_delete type=Host name=%s cascade=0' % hx(nm),
                                'cw_create type=Host name=%s attrs=%s exp=ok must=ok%s' % (hx(nm), enc({'check_command': 'cwcmd'}), FT)], 'retry-after-' + kind))
+    # J. duplicate names, for every type the API can create: the second request must be refused and must not touch
+    #    the file (name or bytes) of the object that exists; same attributes / other attributes / first object from
+    #    static configuration; a name differing only in case is a different object; create - delete - create
+    G0 = 'cw_global name=CwProbe val=initial'
+    for ty in SIMPLE_TYPES + COMPOSITE:
+        for nm0 in ('dupA', 'd"u\\p'):
+            pre, post, par = [], [], 'dp'
+            if ty in COMPOSITE:
+                pre = [cr('Host', 'dh', valid_attrs('Host'), must=True), cr('Service', 'dh!ds', valid_attrs('Service'), must=True)]
+                post = [dl('Host', 'dh', 1)]
+            if ty == 'Dependency':
+                pre.append(cr('Host', 'dp', valid_attrs('Host'), must=True)); post.append(dl('Host', 'dp', 1))
+            names = [nm0] if ty not in COMPOSITE else (['dh!' + nm0] if ty == 'Service' else ['dh!' + nm0, 'dh!ds!' + nm0])
+            for nm in names:
+                va, vb = valid_attrs(ty, par), variant_attrs(ty, par)
+                upper = nm[:-len(nm0)] + nm0.upper()
+                # first object created at run time
+                cases.append(case([G0] + pre + [
+                    cr(ty, nm, va, must=True),
+                    cr(ty, nm, va),                       # same request again: "already exists"
+                    cr(ty, nm, vb),                       # differs only in attributes
+                    cr(ty, upper, vb, must=True),         # differs in case: another object, another file
+                    cr(ty, nm, va),
+                    dl(ty, nm, 0),
+                    cr(ty, nm, vb, must=True),            # the name is free again
+                    cr(ty, nm, va),
+                    dl(ty, upper, 0), dl(ty, nm, 0)] + post, 'dup-runtime-' + ty))
+                # first object from static configuration: refused, and the static object cannot be deleted
+                cases.append(case([G0] + pre + [
+                    st(ty, nm, par if ty == 'Dependency' else None),
+                    cr(ty, nm, va),
+                    cr(ty, nm, vb),
+                    dl(ty, nm, 0), dl(ty, nm, 1),
+                    cr(ty, upper, va, must=True),
+                    cr(ty, nm, va)] + post, 'dup-static-' + ty))
+    # K. cascading deletes over a real dependency graph: host <- services <- notifications / dependencies / comments /
+    #    downtimes / scheduled downtimes, a run-time check command used by a host, static children below run-time
+    #    parents; refused without cascade; with cascade exactly the closure and exactly its files go
+    for i in range(60 * scale):
+        L = [G0]
+        hs = ['ca', 'cb']
+        use_cc = rnd.random() < 0.5
+        if use_cc:
+            L.append(cr('CheckCommand', 'rcc', valid_attrs('CheckCommand'), must=True))
+        objs = []
+        for h in hs:
+            a = valid_attrs('Host')
+            if use_cc and h == 'cb': a['check_command'] = 'rcc'
+            L.append(cr('Host', h, a, must=True) if rnd.random() < 0.85 else st('Host', h))
+            objs.append(('Host', h))
+            for sv in rnd.sample(['s1', 's2', 's"3'], rnd.randint(0, 2)):
+                L.append(cr('Service', h + '!' + sv, valid_attrs('Service'), must=True) if rnd.random() < 0.8 else st('Service', h + '!' + sv))
+                objs.append(('Service', h + '!' + sv))
+        svcs = [n for t, n in objs if t == 'Service']
+        for _ in range(rnd.randint(1, 5)):
+            ty = rnd.choice(COMPOSITE3)
+            base = rnd.choice(hs + svcs)
+            if ty == 'Dependency':           # children below cb, parents below ca: no dependency cycle
+                base = rnd.choice(['cb'] + [x for x in svcs if x.startswith('cb!')])
+            nm = base + '!' + rnd.choice(('x1', 'x2', 'x y'))
+            if (ty, nm) in objs: continue
+            a = valid_attrs(ty, 'ca')
+            psvcs = [x for x in svcs if x.startswith('ca!')]
+            if ty == 'Dependency' and psvcs and rnd.random() < 0.5:
+                ps = rnd.choice(psvcs)
+                a = {'parent_host_name': ps.split('!')[0], 'parent_service_name': ps.split('!')[1]}
+            if rnd.random() < 0.2 and ty != 'Dependency':
+                L.append(st(ty, nm))
+            else:
+                L.append(cr(ty, nm, a, must=True))
+            objs.append((ty, nm))
+        for _ in range(rnd.randint(1, 4)):
+            t, n = rnd.choice(objs + ([('CheckCommand', 'rcc')] if use_cc else []))
+            L.append(dl(t, n, rnd.randint(0, 1)))
+        # a duplicate after the deletes, then everything goes
+        # (only Host / Service: a deleted Service stays in its host's m_Services map - Host::RemoveService is never called -
+        #  so a Comment/Downtime/... requested for a deleted service is accepted by the code; see notes, not exercised here)
+        t, n = rnd.choice([o for o in objs if o[0] in ('Host', 'Service')])
+        L.append(cr(t, n, valid_attrs(t)))
+        for h in hs: L.append(dl('Host', h, 1))
+        if use_cc: L.append(dl('CheckCommand', 'rcc', 1))
+        cases.append(case(L, 'cascade-graph'))
+    # fixed shapes: chain of depth 3, diamond (a notification reached through host and service), dependency between two services
+    cases.append(case([G0, cr('Host', 'k', valid_attrs('Host'), must=True), cr('Service', 'k!s', valid_attrs('Service'), must=True),
+                       cr('Notification', 'k!s!n', valid_attrs('Notification'), must=True), cr('Comment', 'k!s!c', valid_attrs('Comment'), must=True),
+                       cr('Downtime', 'k!d', valid_attrs('Downtime'), must=True),
+                       dl('Service', 'k!s', 0), dl('Host', 'k', 0), dl('Service', 'k!s', 1), dl('Host', 'k', 1)], 'cascade-chain'))
+    cases.append(case([G0, cr('Host', 'k', valid_attrs('Host'), must=True), cr('Service', 'k!s', valid_attrs('Service'), must=True),
+                       cr('Service', 'k!t', valid_attrs('Service'), must=True),
+                       cr('Dependency', 'k!s!d', {'parent_host_name': 'k', 'parent_service_name': 't'}, must=True),
+                       dl('Service', 'k!t', 0), dl('Service', 'k!t', 1), dl('Host', 'k', 1)], 'cascade-dependency'))
+    cases.append(case([G0, cr('CheckCommand', 'rcc', valid_attrs('CheckCommand'), must=True),
+                       cr('Host', 'k', {'check_command': 'rcc'}, must=True), cr('Service', 'k!s', {'check_command': 'rcc'}, must=True),
+                       st('Service', 'k!st'), dl('CheckCommand', 'rcc', 0), dl('CheckCommand', 'rcc', 1),
+                       cr('Host', 'k', {'check_command': 'rcc'}, exp='commit'), cr('Host', 'k', valid_attrs('Host'), must=True), dl('Host', 'k', 0)], 'cascade-command'))
+    # L. failures of every type: invalid attribute, non-configurable attribute, missing parent, bad name
+    for ty in SIMPLE_TYPES + COMPOSITE:
+        va = valid_attrs(ty, 'fp')
+        nm = 'fx' if ty not in COMPOSITE else 'fh!fx'
+        L = [G0, cr('Host', 'fh', valid_attrs('Host'), must=True), cr('Host', 'fp', valid_attrs('Host'), must=True)]
+        bad1 = dict(va); bad1['nosuchattr'] = 'x'
+        bad2 = dict(va); bad2[TYPES[ty][1]] = 'x'
+        L += [cr(ty, nm, bad1), cr(ty, nm, bad2)]
+        if ty in COMPOSITE:
+            L += [cr(ty, 'nohost!fx', va, exp='commit'), cr(ty, 'nobang', va)]
+        if ty in COMPOSITE3:
+            L += [cr(ty, 'fh!nosvc!fx', va, exp='commit')]
+        L += [cr(ty, nm, va, must=True), dl('Host', 'fh', 1), dl('Host', 'fp', 1)]
+        cases.append(case(L, 'fail-' + ty))
+    # M. names with more parts than the composer of the type uses (known finding composite-name-extra-parts until the
+    #    proposed fix is in; Service: must be refused cleanly)
+    for ty in COMPOSITE3:
+        for nm in ('eh!es!en!x', 'eh!!en', 'eh!es!en!'):
+            cases.append(case([G0, cr('Host', 'eh', valid_attrs('Host'), must=True), cr('Service', 'eh!es', valid_attrs('Service'), must=True),
+                               cr('Host', 'ep', valid_attrs('Host'), must=True),
+                               cr(ty, nm, valid_attrs(ty, 'ep')), dl(ty, nm, 0), dl('Host', 'eh', 1), dl('Host', 'ep', 1)], 'extra-parts-' + ty))
+    cases.append(case([G0, cr('Host', 'eh', valid_attrs('Host'), must=True), cr('Service', 'eh!es!x', valid_attrs('Service')),
+                       cr('Service', 'eh!!x', valid_attrs('Service')), dl('Host', 'eh', 1)], 'extra-parts-Service'))
     # G. aimed at F-C17-a: multi-line dictionary keys through the real CreateObject
     for payload in ('x = 1\nCwProbe = "pwn"\nz', 'x\nz', 'a\rb', 'a\x0cb', 'q = {\n}\nz', 'x = 1\r\nz', 'if\nz', 'x\n\n', '\nx'):
         for where in ('nested', 'dotted'):
@@ -473,6 +669,27 @@ def generate(seed, tier):
             cases.append(case(['cw_global name=CwProbe val=initial',
                                'cw_create type=Host name=%s attrs=%s exp=ok%s' % (hx('inj'), enc(attrs), FT),
                                'cw_delete type=Host name=%s cascade=0' % hx('inj')], 'multiline-key'))
+    # N. restart angle: at the end of a transaction case the package directory is loaded the way a restart loads it
+    #    (every file compiled with package _api, committed and activated together) and must yield exactly the live
+    #    run-time objects.  Always for the aimed families; for the random sequences in the thorough tier.
+    for c in cases:
+        fam = c['tags']['family']
+        aimed = fam.startswith(('dup-', 'cascade-', 'fail-', 'retry-', 'name-part-'))
+        if aimed or (tier != 'quick' and fam.startswith('txn')):
+            # not after a request whose name has extra parts (Service: refused; others: known finding, stray object)
+            if any(l.startswith('cw_create') and bytes.fromhex(dict(t.split('=', 1) for t in l.split()[1:] if '=' in t)['name']).count(b'!') >= 2 + (0 if ' type=Service ' in l else 1) for l in c['lines']):
+                continue
+            # only the _api package is reloaded: not in cases that create statically configured objects (a static object
+            # would keep pointing at the old instance of a run-time parent; the harness answers res=skipped anyway).
+            if any(l.startswith('cw_static') for l in c['lines']):
+                continue
+            # once before the trailing deletes (objects are live), once at the very end
+            i = len(c['lines'])
+            while i > 0 and c['lines'][i - 1].startswith('cw_delete'):
+                i -= 1
+            if i < len(c['lines']):
+                c['lines'].insert(i, 'cw_restart')
+            c['lines'].append('cw_restart')
     return cases
 
 
@@ -550,6 +767,11 @@ def classify(case, detail, impl_lines):
         except ValueError: nm = b''
         if nm.count(b'!') >= 2:
             return 'name-extra-parts'
+    if code in (11, 12) and op == 'cw_create' and toks.get('type') in COMPOSITE3:
+        try: nm = bytes.fromhex(toks.get('name', ''))
+        except ValueError: nm = b''
+        if nm.count(b'!') >= 3 or b'' in nm.split(b'!'):
+            return 'composite-name-extra-parts'
     return label
 
 
@@ -571,6 +793,7 @@ def extra_stats(cases, impl):
             if l.startswith('cw_create'): st['create_ok' if ' res=ok' in l else 'create_fail'] += 1
             elif l.startswith('cw_delete'):
                 st['delete_ok' if ' res=ok' in l else ('delete_nosuch' if 'res=nosuch' in l else 'delete_fail')] += 1
+            elif l.startswith('cw_restart'): st['restart_ok' if ' res=ok missing=0 extra=0 changed=0' in l else 'restart_differs'] = st.get('restart_ok' if ' res=ok missing=0 extra=0 changed=0' in l else 'restart_differs', 0) + 1
             elif l.startswith('cw_rt'): st['roundtrip_err' if l.endswith('ERR') else 'roundtrip_ok'] += 1
             elif l.endswith(' EXC'): st['emit_exc'] += 1
     return st
